@@ -209,6 +209,32 @@ func registerReflect(ex *Exec) {
 		}
 		return v.V, true
 	}
+	// Pointer: the identity of the storage behind a slice, map, pointer, channel or function value
+	I["(reflect.Value).Pointer"] = func(ex *Exec, st *State, args []Value, call ssa.CallInstruction) (Value, bool) {
+		v := rv(st, args[0], "Pointer")
+		switch x := v.V.(type) {
+		case Slice:
+			if x.Arr == 0 {
+				return C.BVConst(0, 64), true
+			}
+			return C.BVConst(uint64(x.Arr)<<20+uint64(x.Off)*16, 64), true
+		case MapRef:
+			return C.BVConst(uint64(x.Obj)<<20, 64), true
+		case ChanRef:
+			return C.BVConst(uint64(x.Obj)<<20, 64), true
+		case Ptr:
+			if x.Obj == 0 {
+				return C.BVConst(0, 64), true
+			}
+			off := uint64(0)
+			for _, p := range x.Path {
+				off = off*64 + uint64(p) + 1
+			}
+			return C.BVConst(uint64(x.Obj)<<20+off, 64), true
+		}
+		ex.goPanic(st, "reflect: call of reflect.Value.Pointer on "+reflKindNames[reflKind(v.T)]+" Value")
+		return nil, true
+	}
 	I["(reflect.Value).String"] = func(ex *Exec, st *State, args []Value, call ssa.CallInstruction) (Value, bool) {
 		if _, ok := args[0].(Struct); ok {
 			return ex.strConst("<invalid Value>"), true
